@@ -5,6 +5,10 @@ import sys
 import traceback
 
 
+# checks whose contracts run on the abstract circuit heap of pyvc/circuit_model.py
+HEAP_PROPS = {'C01', 'C02', 'C03', 'C05', 'C10', 'C14', 'C15', 'C18', 'C19', 'C20'}
+
+
 def main(argv):
     if not argv:
         print('usage: check <property id> [--tier quick|thorough]')
@@ -39,6 +43,18 @@ def main(argv):
         rep.extra['encoder_selftest'] = {'scripts': len(selftest.SCRIPTS), 'result': 'agree' if not rep.errors else 'DISAGREE'}
     except Exception:
         rep.error('encoder self-test crashed: ' + traceback.format_exc()[-1500:])
+    if prop in HEAP_PROPS:
+        # guard of the abstract circuit heap: the contracts of a few mutators, run on a CONCRETE small circuit, must describe
+        # exactly what CPython does (pyvc/conformance.py); quick: 2 cases, thorough: 12
+        try:
+            from .pyvc import conformance_cases
+            n, probs = conformance_cases.run(env.TIER != 'thorough')
+            for msg in probs:
+                rep.error(msg)
+            rep.extra['heap_conformance'] = {'cases': n, 'result': 'conforms' if not probs else 'DEVIATES',
+                                             'over_approximations': list(getattr(conformance_cases.run, 'imprecise', []))[:10]}
+        except Exception:
+            rep.error('heap conformance test crashed: ' + traceback.format_exc()[-1500:])
     try:
         import subprocess
         r = subprocess.run([os.path.join(env.VERIF, 'bin', 'lemmas')], capture_output=True, text=True, timeout=120)
